@@ -30,7 +30,7 @@ Diff(k, ev, want, rid) ==
   LET got == ev.state[rid] IN
   IF /\ want.errs = got.errs /\ want.warns = got.warns /\ want.mc = got.mc /\ Queries(want) = got.q
   THEN {} ELSE {[l |-> k, clause |-> "projection", rid |-> rid, dev |-> "",
-                 want |-> [errs |-> want.errs, warns |-> want.warns, mc |-> want.mc, q |-> Queries(want)], got |-> got]}
+                 want |-> ToString([errs |-> want.errs, warns |-> want.warns, mc |-> want.mc, q |-> Queries(want)]), got |-> ToString(got)]}
 
 TraceNext ==
   /\ l <= Len(Trace)
@@ -47,12 +47,12 @@ TraceNext ==
                           ELSE IF ev.op.name \in {"Merge", "MergeAsErrors", "MergeAsWarnings"} THEN alive \ Consumed(res, ev.op.os) ELSE alive
           IN /\ fails' = fails
                   \cup (IF legal THEN {} ELSE {[l |-> l, clause |-> "not-enabled", rid |-> ev.op.r, dev |-> "", want |-> "enabled", got |-> ev.op.name]})
-                  \cup (IF al = expAlive THEN {} ELSE {[l |-> l, clause |-> "alive-set", rid |-> ev.op.r, dev |-> "", want |-> expAlive, got |-> al]})
+                  \cup (IF al = expAlive THEN {} ELSE {[l |-> l, clause |-> "alive-set", rid |-> ev.op.r, dev |-> "", want |-> ToString(expAlive), got |-> ToString(al)]})
                   \cup UNION {Diff(l, ev, R1[rid], rid) : rid \in al \cap expAlive}
                   \* the module invariant NoDupMsgs, evaluated on the RECORDED state of every live result
-                  \cup {[l |-> l, clause |-> "NoDupMsgs", rid |-> rid, dev |-> "", want |-> "no duplicate, no nil", got |-> ev.state[rid]] :
+                  \cup {[l |-> l, clause |-> "NoDupMsgs", rid |-> rid, dev |-> "", want |-> "no duplicate, no nil", got |-> ToString(ev.state[rid])] :
                           rid \in {x \in al : LET e == ev.state[x] IN ~NoDupSeq(e.errs) \/ ~NoDupSeq(e.warns) \/ InSeq(Nil, e.errs) \/ InSeq(Nil, e.warns)}}
-                  \cup (IF ev.nilq = NilQueries THEN {} ELSE {[l |-> l, clause |-> "nil-queries", rid |-> "nil", dev |-> "", want |-> NilQueries, got |-> ev.nilq]})
+                  \cup (IF ev.nilq = NilQueries THEN {} ELSE {[l |-> l, clause |-> "nil-queries", rid |-> "nil", dev |-> "", want |-> ToString(NilQueries), got |-> ToString(ev.nilq)]})
              \* resynchronise on the recorded state (keeping the spec's pooled flags)
              /\ res' = [r \in RIds |-> IF r \in al THEN [Rec(ev.state[r]) EXCEPT !.pooled = R1[r].pooled] ELSE R1[r]]
              /\ alive' = al
